@@ -1,12 +1,479 @@
-/- C09 model — placeholder until the property is built -/
+/-
+  C09 — `Interop`: the interpreter as a dictionary of Python values and functions.
+
+  Mirrors (klongpy, tree with the `fix-c09` commits applied):
+    klongpy/types.py  KGLambda.__init__            -> `lambdaArgs`, `arity`, `providesKlong`
+                      (pinned tree: by NAME        -> `lambdaArgsByName`, kept for the witness)
+    klongpy/types.py  KGLambda._get_pos_args/__call__ -> `fetch`, `applyPyWith`
+    klongpy/interpreter.py _eval_fn                -> `bindArgs` (zip of x,y,z with the evaluated
+                                                      arguments, push, call, pop), `fill`
+                                                      (merge_projections, one level)
+    klongpy/adverbs.py eval_adverb_each / _over, dyads.py eval_dyad_at_index (function case)
+                                                   -> `eachPy`, `overPy`, `atPy`
+    klongpy/interpreter.py set_context_var, KlongContext.__setitem__/__getitem__/__delitem__,
+                      KlongInterpreter.__setitem__/__getitem__/__delitem__
+                                                   -> `wrap`, `setItem`, `lookupCtx`, `getItem`, `delItem`
+    klongpy/types.py  KGFnWrapper.__call__/_apply   -> `wrapperTarget`, `entryArity`, `wrapperCall`
+    klong('name(a;b;c)')                            -> `klongCall`
+
+  Values are opaque (`α`): the interop layer never inspects a data value.  A Python callable
+  is an arbitrary function of (how many calls were logged before, its arguments); every
+  invocation is appended to a log (writer structure), which is what "called exactly once
+  with exactly these arguments" is stated about.  The body of a Klong function is
+  uninterpreted: applying body `b` to `args` is the symbolic result `kres b args`.
+-/
 import Klong.Model.Wire
 namespace Klong.C09
+open Klong.Wire
+
+/-! ### signatures -/
+
+inductive Param
+  | klong | x | y | z | other
+deriving DecidableEq, Repr
+
+abbrev Sig := List Param
+abbrev Name := String
+
+def reserved : List Param := [.x, .y, .z]
+
+def Param.name : Param → Name
+  | .klong => "klong" | .x => "x" | .y => "y" | .z => "z" | .other => "other"
+
+/-- pinned tree: `[sym(n) for n in ('x','y','z') if n in params]` — by NAME, in x,y,z order -/
+def lambdaArgsByName (sig : Sig) : List Param := reserved.filter (fun p => sig.contains p)
+
+/-- repaired tree: the first n of x,y,z where n = number of parameters named x, y or z -/
+def lambdaArgs (sig : Sig) : List Param := reserved.take (lambdaArgsByName sig).length
+
+/-- `KGLambda.get_arity` -/
+def arity (sig : Sig) : Nat := (lambdaArgs sig).length
+
+/-- `'klong' in params` -/
+def providesKlong (sig : Sig) : Bool := sig.contains .klong
+
+/-! ### context stack -/
+
+inductive Entry (α : Type)
+  | data (v : α)                                     -- any non-callable Python / Klong value
+  | pyfn (id : Nat) (sig : Sig)                      -- KGCall(KGLambda(fn), None, arity): a wrapped callable
+  | kfn (arity : Nat) (body : Nat)                   -- KGFn made by name::{…}
+  | proj (base : Name) (slots : List (Option α))     -- KGFn made by name::base(a;;c)
+deriving Repr, DecidableEq
+
+abbrev Frame (α : Type) := List (Name × Entry α)
+/-- innermost frame first, the global frame last -/
+abbrev Ctx (α : Type) := List (Frame α)
+
+/-- `KlongContext.__getitem__` (modules not modelled) -/
+def lookupCtx {α} : Ctx α → Name → Option (Entry α)
+  | [], _ => none
+  | f :: fs, n => match f.lookup n with
+    | some e => some e
+    | none => lookupCtx fs n
+
+def isReserved (n : Name) : Bool := n == "x" || n == "y" || n == "z"
+
+def Frame.set {α} (f : Frame α) (n : Name) (e : Entry α) : Frame α :=
+  (n, e) :: f.filter (fun p => p.1 != n)
+
+def Frame.has {α} (f : Frame α) (n : Name) : Bool := (f.lookup n).isSome
+
+/-- a value handed over from Python -/
+inductive PyVal (α : Type)
+  | data (v : α)
+  | callable (id : Nat) (sig : Sig)
+deriving Repr, DecidableEq
+
+/-- `set_context_var`: callables are wrapped, everything else is stored as is -/
+def wrap {α} : PyVal α → Entry α
+  | .data v => .data v
+  | .callable id sig => .pyfn id sig
+
+/-- overwrite in the first frame that has the name -/
+def setExisting {α} : Ctx α → Name → Entry α → Option (Ctx α)
+  | [], _, _ => none
+  | f :: fs, n, e =>
+    if f.has n then some (f.set n e :: fs)
+    else (setExisting fs n e).map (f :: ·)
+
+/-- `KlongContext.__setitem__` (strict mode 0): an existing, non-reserved name is overwritten
+    where it lives, otherwise the variable is created in the innermost frame -/
+def setEntry {α} (c : Ctx α) (n : Name) (e : Entry α) : Ctx α :=
+  match (if isReserved n then none else setExisting c n e) with
+  | some c' => c'
+  | none => match c with
+    | [] => [[(n, e)]]
+    | f :: fs => f.set n e :: fs
+
+/-- `klong[name] = v` -/
+def setItem {α} (c : Ctx α) (n : Name) (v : PyVal α) : Ctx α := setEntry c n (wrap v)
+
+/-- `del klong[name]`: removes the first binding; `none` = KeyError -/
+def delItem {α} : Ctx α → Name → Option (Ctx α)
+  | [], _ => none
+  | f :: fs, n =>
+    if f.has n then some (f.filter (fun p => p.1 != n) :: fs)
+    else (delItem fs n).map (f :: ·)
+
+/-- `KGFnWrapper(klong, fn, sym)` -/
+structure Wrapper (α : Type) where
+  sym : Option Name
+  fn : Entry α
+deriving Repr, DecidableEq
+
+inductive Got (α : Type)
+  | data (v : α)
+  | wrapper (w : Wrapper α)
+  | keyError
+deriving Repr, DecidableEq
+
+/-- `klong[name]`: functions come back wrapped, data as is -/
+def getItem {α} (c : Ctx α) (n : Name) : Got α :=
+  match lookupCtx c n with
+  | none => .keyError
+  | some (.data v) => .data v
+  | some e => .wrapper ⟨some n, e⟩
+
+/-! ### calling -/
+
+structure World (α : Type) where
+  /-- callable id, number of calls logged before this one, arguments -/
+  ret : Nat → Nat → List α → α
+
+/-- one invocation of a Python callable: id, whether it was handed the interpreter, arguments -/
+structure Call (α : Type) where
+  id : Nat
+  klong : Bool
+  args : List α
+deriving Repr, DecidableEq
+
+abbrev Log (α : Type) := List (Call α)
+
+inductive Err
+  | keyError | arityError | undefined | unsupported
+deriving Repr, DecidableEq
+
+inductive Out (α : Type)
+  | val (v : α)                          -- a value (the return value of a Python callable, or data)
+  | list (vs : List α)                   -- result of Each
+  | kres (body : Nat) (args : List α)    -- a Klong body run on these arguments
+  | unapplied                            -- too few arguments: a projection comes back, nothing is called
+  | err (e : Err)
+deriving Repr, DecidableEq
+
+/-- `_eval_fn`: `{sym(p): eval(q) for p, q in zip(('x','y','z'), f_args)}` -/
+def bindArgs {α} (args : List α) : Frame α :=
+  (List.zip ["x", "y", "z"] args).map fun p => (p.1, Entry.data p.2)
+
+/-- `ctx[sym]` as an argument value (a function-valued x/y/z is outside the model) -/
+def fetch {α} (c : Ctx α) (p : Param) : Option α :=
+  match lookupCtx c p.name with
+  | some (.data v) => some v
+  | _ => none
+
+/-- `[ctx[x] for x in self.args]`; `none` = KeyError -/
+def fetchAll {α} (c : Ctx α) : List Param → Option (List α)
+  | [] => some []
+  | p :: ps =>
+    match fetch c p, fetchAll c ps with
+    | some v, some vs => some (v :: vs)
+    | _, _ => none
+
+/-- `_eval_fn` on a wrapped Python callable + `KGLambda.__call__`, for a given way of
+    deriving the declared arguments from the signature -/
+def applyPyWith {α} (argsOf : Sig → List Param) (w : World α) (c : Ctx α) (id : Nat) (sig : Sig)
+    (args : List α) (log : Log α) : Out α × Log α :=
+  if args.length < (argsOf sig).length then (.unapplied, log)
+  else
+    match fetchAll (bindArgs args :: c) (argsOf sig) with
+    | none => (.err .keyError, log)
+    | some pos => (.val (w.ret id log.length pos), log ++ [⟨id, providesKlong sig, pos⟩])
+
+/-- the repaired code -/
+def applyPy {α} (w : World α) (c : Ctx α) (id : Nat) (sig : Sig) (args : List α) (log : Log α) :=
+  applyPyWith lambdaArgs w c id sig args log
+
+/-- the pinned tree -/
+def applyPyByName {α} (w : World α) (c : Ctx α) (id : Nat) (sig : Sig) (args : List α) (log : Log α) :=
+  applyPyWith lambdaArgsByName w c id sig args log
+
+/-- `merge_projections`, one level: open slots are filled left to right -/
+def fill {α} : List (Option α) → List α → List (Option α)
+  | [], _ => []
+  | some v :: s, as => some v :: fill s as
+  | none :: s, a :: as => some a :: fill s as
+  | none :: s, [] => none :: fill s []
+
+def allSome {α} : List (Option α) → Option (List α)
+  | [] => some []
+  | none :: _ => none
+  | some v :: r => (allSome r).map (v :: ·)
+
+/-- `g::f(a;;c)` then `g(b)` -/
+def projPyWith {α} (argsOf : Sig → List Param) (w : World α) (c : Ctx α) (id : Nat) (sig : Sig)
+    (slots : List (Option α)) (args : List α) (log : Log α) : Out α × Log α :=
+  match allSome (fill slots args) with
+  | none => (.unapplied, log)
+  | some full => applyPyWith argsOf w c id sig full log
+
+/-- `f'a` for a list `a` -/
+def eachPyWith {α} (argsOf : Sig → List Param) (w : World α) (c : Ctx α) (id : Nat) (sig : Sig) :
+    List α → Log α → Out α × Log α
+  | [], log => (.list [], log)
+  | e :: es, log =>
+    match applyPyWith argsOf w c id sig [e] log with
+    | (.val r, log1) =>
+      match eachPyWith argsOf w c id sig es log1 with
+      | (.list rs, log2) => (.list (r :: rs), log2)
+      | other => other
+    | other => other
+
+/-- the fold of `f/a` once the first element has been taken -/
+def overFromWith {α} (argsOf : Sig → List Param) (w : World α) (c : Ctx α) (id : Nat) (sig : Sig) :
+    α → List α → Log α → Out α × Log α
+  | acc, [], log => (.val acc, log)
+  | acc, e :: es, log =>
+    match applyPyWith argsOf w c id sig [acc, e] log with
+    | (.val r, log1) => overFromWith argsOf w c id sig r es log1
+    | other => other
+
+/-- `f/a` for a list `a`: [] and one-element lists never call f -/
+def overPyWith {α} (argsOf : Sig → List Param) (w : World α) (c : Ctx α) (id : Nat) (sig : Sig) :
+    List α → Log α → Out α × Log α
+  | [], log => (.list [], log)
+  | a :: es, log => overFromWith argsOf w c id sig a es log
+
+/-- `f@a` for a list `a`: the members are the arguments -/
+def atPyWith {α} (argsOf : Sig → List Param) (w : World α) (c : Ctx α) (id : Nat) (sig : Sig)
+    (elems : List α) (log : Log α) : Out α × Log α :=
+  applyPyWith argsOf w c id sig elems log
+
+def eachPy {α} (w : World α) (c : Ctx α) (id : Nat) (sig : Sig) := eachPyWith (α := α) lambdaArgs w c id sig
+def overPy {α} (w : World α) (c : Ctx α) (id : Nat) (sig : Sig) := overPyWith (α := α) lambdaArgs w c id sig
+def atPy {α} (w : World α) (c : Ctx α) (id : Nat) (sig : Sig) := atPyWith (α := α) lambdaArgs w c id sig
+def projPy {α} (w : World α) (c : Ctx α) (id : Nat) (sig : Sig) := projPyWith (α := α) lambdaArgs w c id sig
+
+/-- reference for Over: what a left fold of single logged calls produces -/
+def overSpec {α} (w : World α) (id : Nat) (k : Bool) : α → List α → Log α → α × Log α
+  | acc, [], log => (acc, log)
+  | acc, e :: es, log =>
+    overSpec w id k (w.ret id log.length [acc, e]) es (log ++ [⟨id, k, [acc, e]⟩])
+
+/-- reference for Each -/
+def eachSpec {α} (w : World α) (id : Nat) (k : Bool) : List α → Log α → List α × Log α
+  | [], log => ([], log)
+  | e :: es, log =>
+    let r := w.ret id log.length [e]
+    let (rs, log') := eachSpec w id k es (log ++ [⟨id, k, [e]⟩])
+    (r :: rs, log')
+
+/-! ### applying what a name is bound to -/
+
+/-- a function without open slots (not a projection): run it -/
+def applyBase {α} (w : World α) (c : Ctx α) (e : Entry α) (args : List α) (log : Log α) : Out α × Log α :=
+  match e with
+  | .data v => (.val v, log)                     -- `n::7; n(1;2)` is 7
+  | .pyfn id sig => applyPy w c id sig args log
+  | .kfn ar body => if args.length < ar then (.unapplied, log) else (.kres body (args.take ar), log)
+  | .proj _ _ => (.err .unsupported, log)        -- projection of a projection: C03, not modelled here
+
+def countOpen {α} (slots : List (Option α)) : Nat := (slots.filter Option.isNone).length
+
+/-- `_eval_fn` of a call whose function is `e` -/
+def applyEntry {α} (w : World α) (c : Ctx α) (e : Entry α) (args : List α) (log : Log α) : Out α × Log α :=
+  match e with
+  | .proj base slots =>
+    match allSome (fill slots args) with
+    | none => (.unapplied, log)
+    | some full =>
+      match lookupCtx c base with
+      | none => (.err .undefined, log)
+      | some b => applyBase w c b full log
+  | e => applyBase w c e args log
+
+/-- `klong('name(a;b;c)')` with the arguments already evaluated -/
+def klongCall {α} (w : World α) (c : Ctx α) (n : Name) (args : List α) (log : Log α) : Out α × Log α :=
+  match lookupCtx c n with
+  | none => (.err .undefined, log)
+  | some e => applyEntry w c e args log
+
+/-- the number of arguments `KGFnWrapper._apply` insists on -/
+def entryArity {α} : Entry α → Nat
+  | .data _ => 0
+  | .pyfn _ sig => arity sig
+  | .kfn ar _ => ar
+  | .proj _ slots => countOpen slots
+
+/-- dynamic re-resolution: the current binding if it is a Klong function (KGFn, not KGCall),
+    otherwise — deleted, data, or a wrapped Python callable — the captured function -/
+def wrapperTarget {α} (c : Ctx α) (wr : Wrapper α) : Entry α :=
+  match wr.sym with
+  | none => wr.fn
+  | some s =>
+    match lookupCtx c s with
+    | some (.kfn ar b) => .kfn ar b
+    | some (.proj base slots) => .proj base slots
+    | _ => wr.fn
+
+/-- `KGFnWrapper.__call__` -/
+def wrapperCall {α} (w : World α) (c : Ctx α) (wr : Wrapper α) (args : List α) (log : Log α) :
+    Out α × Log α :=
+  let f := wrapperTarget c wr
+  if args.length ≠ entryArity f then (.err .arityError, log)
+  else applyEntry w c f args log
+
+/-! ### histories -/
+
+inductive Op (α : Type)
+  | set (n : Name) (v : PyVal α)                       -- klong[n] = v
+  | defk (n : Name) (arity : Nat) (body : Nat)         -- n::{…}
+  | defp (n : Name) (base : Name) (slots : List (Option α))   -- n::base(a;;c)
+  | del (n : Name)                                     -- del klong[n] (KeyError leaves the state alone)
+deriving Repr, DecidableEq
+
+def Op.name {α} : Op α → Name
+  | .set n _ => n | .defk n _ _ => n | .defp n _ _ => n | .del n => n
+
+def step {α} (c : Ctx α) : Op α → Ctx α
+  | .set n v => setItem c n v
+  | .defk n ar b => setEntry c n (.kfn ar b)
+  | .defp n base slots => setEntry c n (.proj base slots)
+  | .del n => (delItem c n).getD c
+
+def runOps {α} (c : Ctx α) (ops : List (Op α)) : Ctx α := ops.foldl step c
+
+/-! ### driver (values are interned tokens) -/
 
 structure State where
-  unit : Unit := ()
+  byName : Bool := false
+  ctx : Ctx Nat := [[]]
+  wrappers : List (Nat × Wrapper Nat) := []
+  rets : List Nat := []
+  log : Log Nat := []
 
 def init : State := {}
 
-def handle (s : State) (_ws : List String) : State × String := (s, "bad-op")
+def State.world (s : State) : World Nat := ⟨fun _ i _ => s.rets.getD i 0⟩
+def State.argsOf (s : State) : Sig → List Param := if s.byName then lambdaArgsByName else lambdaArgs
+
+def parseParam : String → Option Param
+  | "k" => some .klong | "x" => some .x | "y" => some .y | "z" => some .z | "o" => some .other
+  | _ => none
+
+def parseSig (s : String) : Option Sig := (splitOnChar s ',').mapM parseParam
+
+def parseNats (s : String) : Option (List Nat) := (splitOnChar s ',').mapM String.toNat?
+
+def parseSlots (s : String) : Option (List (Option Nat)) :=
+  (splitOnChar s ',').mapM fun t => if t = "_" then some none else t.toNat?.map some
+
+def showNats (l : List Nat) : String := ",".intercalate (l.map toString)
+
+def showErr : Err → String
+  | .keyError => "keyerror" | .arityError => "arity" | .undefined => "undefined" | .unsupported => "unsupported"
+
+def showOut : Out Nat → String
+  | .val v => s!"val:{v}"
+  | .list vs => s!"list:{showNats vs}"
+  | .kres b as => s!"kres:{b}:{showNats as}"
+  | .unapplied => "unapplied"
+  | .err e => s!"err:{showErr e}"
+
+def showCall (c : Call Nat) : String :=
+  s!"{c.id}/{if c.klong then 1 else 0}/{".".intercalate (c.args.map toString)}"
+
+def showLog (l : Log Nat) : String := ";".intercalate (l.map showCall)
+
+/-- reply with the outcome and the calls this operation added to the log -/
+def finish (s : State) (r : Out Nat × Log Nat) : State × String :=
+  ({ s with log := r.2 }, showOut r.1 ++ " log=" ++ showLog (r.2.drop s.log.length))
+
+def handle (s : State) (ws : List String) : State × String :=
+  match ws with
+  | "new" :: rest =>
+    let fs := fields rest
+    match parseNats (fieldD fs "rets") with
+    | some rets => ({ byName := fieldD fs "mode" == "byname", rets := rets }, "ok")
+    | none => (s, "bad-op")
+  | "set" :: rest =>
+    let fs := fields rest
+    let n := fieldD fs "name"
+    if n == "" then (s, "bad-op") else
+    match fieldD fs "kind" with
+    | "data" =>
+      match natField fs "v" with
+      | some v => ({ s with ctx := setItem s.ctx n (.data v) }, "ok")
+      | none => (s, "bad-op")
+    | "py" =>
+      match natField fs "id", parseSig (fieldD fs "sig") with
+      | some id, some sig => ({ s with ctx := setItem s.ctx n (.callable id sig) }, "ok")
+      | _, _ => (s, "bad-op")
+    | _ => (s, "bad-op")
+  | "defk" :: rest =>
+    let fs := fields rest
+    match natField fs "arity", natField fs "body" with
+    | some ar, some b =>
+      if fieldD fs "name" == "" then (s, "bad-op")
+      else ({ s with ctx := step s.ctx (.defk (fieldD fs "name") ar b) }, "ok")
+    | _, _ => (s, "bad-op")
+  | "defp" :: rest =>
+    let fs := fields rest
+    match parseSlots (fieldD fs "slots") with
+    | some slots =>
+      if fieldD fs "name" == "" || fieldD fs "base" == "" then (s, "bad-op")
+      else ({ s with ctx := step s.ctx (.defp (fieldD fs "name") (fieldD fs "base") slots) }, "ok")
+    | none => (s, "bad-op")
+  | "del" :: rest =>
+    let fs := fields rest
+    match delItem s.ctx (fieldD fs "name") with
+    | some c => ({ s with ctx := c }, "ok")
+    | none => (s, "keyerror")
+  | "get" :: rest =>
+    let fs := fields rest
+    match getItem s.ctx (fieldD fs "name") with
+    | .data v => (s, s!"data:{v}")
+    | .keyError => (s, "keyerror")
+    | .wrapper w =>
+      match natField fs "wid" with
+      | some wid => ({ s with wrappers := (wid, w) :: s.wrappers }, "wrapper")
+      | none => (s, "wrapper")
+  | "see" :: rest =>
+    let fs := fields rest
+    match lookupCtx s.ctx (fieldD fs "name") with
+    | some (.data v) => (s, s!"data:{v}")
+    | some _ => (s, "fn")
+    | none => (s, "undefined")
+  | "wcall" :: rest =>
+    let fs := fields rest
+    match natField fs "wid", parseNats (fieldD fs "args") with
+    | some wid, some args =>
+      match s.wrappers.lookup wid with
+      | some w => finish s (wrapperCall s.world s.ctx w args s.log)
+      | none => (s, "bad-op")
+    | _, _ => (s, "bad-op")
+  | "kcall" :: rest =>
+    let fs := fields rest
+    match parseNats (fieldD fs "args") with
+    | some args => finish s (klongCall s.world s.ctx (fieldD fs "name") args s.log)
+    | none => (s, "bad-op")
+  | "pycall" :: rest =>
+    let fs := fields rest
+    match parseNats (fieldD fs "args"), parseNats (fieldD fs "frame"), parseSlots (fieldD fs "slots") with
+    | some args, some frame, some slots =>
+      -- the call happens inside a Klong function whose x,y,z are `frame` (empty: top level)
+      let c := if frame.isEmpty then s.ctx else bindArgs frame :: s.ctx
+      match lookupCtx s.ctx (fieldD fs "name") with
+      | some (.pyfn id sig) =>
+        match fieldD fs "form" with
+        | "direct" => finish s (applyPyWith s.argsOf s.world c id sig args s.log)
+        | "proj" => finish s (projPyWith s.argsOf s.world c id sig slots args s.log)
+        | "each" => finish s (eachPyWith s.argsOf s.world c id sig args s.log)
+        | "over" => finish s (overPyWith s.argsOf s.world c id sig args s.log)
+        | "at" => finish s (atPyWith s.argsOf s.world c id sig args s.log)
+        | _ => (s, "bad-op")
+      | _ => (s, "not-a-callable")
+    | _, _, _ => (s, "bad-op")
+  | _ => (s, "bad-op")
 
 end Klong.C09
